@@ -804,6 +804,14 @@ class Exec:
                     return ~a
             if rv[1] == "Neg" and z3.is_bv(a):
                 return -a
+            if rv[1] == "PtrMetadata":
+                # length of a slice behind a (fat) reference
+                v = self.read_ref(st, a) if isinstance(a, Ref) else a
+                if isinstance(v, Seq):
+                    return v.length()
+                if isinstance(v, Agg) and v.ty == "array":
+                    return z3.BitVecVal(len(v.fields), 64)
+                return self.uf("len", Val, z3.BitVecSort(64))(self.to_val(st, v))
             raise Unsupported("unop " + rv[1])
         if k == "agg":
             _, akind, path, fields, names = rv
